@@ -292,7 +292,7 @@ func TestC11_Sessions(t *testing.T) {
 		inPool := true
 		steps := rapid.IntRange(2, 14).Draw(t, "steps")
 		for i := 0; i < steps; i++ {
-			switch rapid.IntRange(0, 9).Draw(t, "op") {
+			switch rapid.IntRange(0, 10).Draw(t, "op") {
 			case 0, 1, 2: // follow-up with the session cookie
 				expired := w.cd.ttl > 0 && now > mint+w.cd.ttl+time.Second
 				fresh := w.cd.ttl == 0 || now < mint+w.cd.ttl-time.Second
@@ -362,6 +362,30 @@ func TestC11_Sessions(t *testing.T) {
 						break
 					}
 				}
+			case 10: // drain: every member gets weight 0; the pinned client must still reach S
+				if !inPool || w.cd.ttl > 0 {
+					break
+				}
+				for _, u := range w.members {
+					if w.direct[key(u)] {
+						_ = w.rr.UpsertServer(u, roundrobin.Weight(0))
+					} else {
+						_ = w.p.UpsertServer(u, roundrobin.Weight(0))
+					}
+				}
+				seen, _, code := w.do(cookie)
+				w.logf("drained-all; followup->%v (%d)", seen, code)
+				if w.served != 1 || seen == nil || key(seen) != key(S) {
+					w.fail("every member was given weight 0; the follow-up carrying the cookie issued for %s got status %d and was routed to %v: affinity must not depend on weights", S, code, seen)
+				}
+				for _, u := range w.members { // back to servable weights
+					if w.direct[key(u)] {
+						_ = w.rr.UpsertServer(u, roundrobin.Weight(1))
+					} else {
+						_ = w.p.UpsertServer(u, roundrobin.Weight(1))
+					}
+				}
+				poolChange = true
 			case 6: // move the rotation
 				for k := rapid.IntRange(1, 5).Draw(t, "nexts"); k > 0; k-- {
 					_, _ = w.rr.NextServer()
